@@ -77,7 +77,7 @@ PROPS = {
         title="Results depend only on arguments: no hidden state, history or alignment",
         module="SpqProofs.Properties.C15",
         gen=["globals", "caches"],
-        streams=dict(quick=[("ca_prog", "plain"), ("ca_irrelevant", "plain"), ("vz_box", "plain"), ("md_prod", "plain")],
+        streams=dict(quick=[("ca_prog", "plain"), ("ca_irrelevant", "plain"), ("vz_box", "plain"), ("md_prod", "plain"), ("md_vmp", "plain")],
                      thorough=[("ca_prog", "plain"), ("ca_irrelevant", "plain"), ("vz_box", "plain"), ("vz_norm", "plain"), ("md_prod", "plain"), ("md_vmp", "plain")]),
         proved="history independence of every function with function-local static state (structure extracted from the C source each run): after any call sequence the table in use was built with the call's own values of every table-relevant constructor argument; Gen obligations: every constructor argument is in the cache key, every function referencing mutable static storage is a modelled cache; purity of the limb-vector operations (outputs depend on source cells only)",
         not_proved="which constructor arguments are table-irrelevant is declared by hand (4 entries) and validated by byte-comparing tables (stream ca_irrelevant); buffer alignment independence is checked by the streams only (all loads are unaligned loads)",
@@ -88,8 +88,8 @@ PROPS = {
     "C13": dict(
         title="Supported in-place calls give the same result as out-of-place calls",
         module="SpqProofs.Properties.C13",
-        streams=dict(quick=[("vz_box", "plain"), ("kz_probe", "plain"), ("vz_norm", "plain"), ("md_prod", "plain")],
-                     thorough=[("vz_box", "plain"), ("kz_probe", "plain"), ("vz_norm", "plain"), ("md_prod", "plain")]),
+        streams=dict(quick=[("vz_box", "plain"), ("kz_probe", "plain"), ("vz_norm", "plain"), ("md_prod", "plain"), ("alias_mul", "plain"), ("md_prog", "plain")],
+                     thorough=[("vz_box", "plain"), ("kz_probe", "plain"), ("vz_norm", "plain"), ("md_prod", "plain"), ("alias_mul", "plain"), ("md_prog", "plain")]),
         proved="call-independence theorems: an aliased call (res==a or res==b, same stride) and a call with separate buffers on the same source data give identical output cells, for add/sub/copy/negate/rotate/automorphism and the big variants, all limb counts (res_size != aliased size included)",
         not_proved="the inverse DFT in place and pointwise products with r==a are float kernels: covered by the module-level streams (bit-exact), theorem staged with the FFT model",
         level_text="Lean 4 theorems: aliased call = separate-buffer call on identical data for every shape; in-place kernels tied to the real code by the exhaustive probe stream",
